@@ -36,7 +36,7 @@ func cfail(format string, a ...any) {
 }
 
 var specialFuncs = map[string]bool{"old": true, "implies": true, "forall": true, "exists": true, "elems": true, "fresh": true,
-	"sliceIs": true, "ite": true, "unchanged": true, "sameArray": true, "mapof": true, "allocated": true, "iff": true}
+	"sliceIs": true, "ite": true, "unchanged": true, "sameArray": true, "mapof": true, "allocated": true, "iff": true, "has": true, "clock": true}
 
 // freeIdents: identifiers in e that may refer to contract-level names.
 func freeIdents(e ast.Expr) map[string]bool {
@@ -159,6 +159,8 @@ func (fr *Frame) visibleNames(loop *Loop) map[string]types.Type {
 		}
 		if off == 1 && fr.selfType != nil {
 			m["self"] = fr.selfType
+		} else if off == 1 && sig.Recv() != nil {
+			m[fr.paramNames[0]] = sig.Recv().Type()
 		}
 	}
 	if sig != nil {
@@ -734,6 +736,7 @@ func (env *Env) place(e ast.Expr) place {
 			mv := env.eval(e.X)
 			k := env.eval(e.Index)
 			ks, vs := mapKeys(x, u)
+			x.mapTag(mv, u)
 			pres := c.And(c.Neq(mv, c.Null()), c.Select(c.Select(x.mapPresent(env.st, ks), mv), k))
 			v := c.Ite(pres, c.Select(c.Select(x.mapVals(env.st, ks, vs), mv), k), x.ti.zero(u.Elem()))
 			return place{val: v, typ: u.Elem()}
@@ -974,6 +977,19 @@ func (env *Env) evalSpecial(name string, e *ast.CallExpr) *Term {
 			p = c.SlPtr(p)
 		}
 		return c.And(c.IntCmp(">", c.RRoot(p), c.Int(0)), c.IntCmp("<", c.RRoot(p), env.st.alloc))
+	case "has":
+		// has(m, k): key k is present in map m
+		mv := env.eval(e.Args[0])
+		mt, ok := env.typeOf(e.Args[0]).Underlying().(*types.Map)
+		if !ok {
+			cfail("has(m, k) needs a map")
+		}
+		ks, _ := mapKeys(x, mt)
+		x.mapTag(mv, mt)
+		return c.And(c.Neq(mv, c.Null()), c.Select(c.Select(x.mapPresent(env.st, ks), mv), env.eval(e.Args[1])))
+	case "clock":
+		// clock(): the latest instant time.Now() has returned (ghost; instants never decrease)
+		return x.clockOf(env.st)
 	case "sameArray":
 		a, b := env.eval(e.Args[0]), env.eval(e.Args[1])
 		return c.Eq(c.SlPtr(a), c.SlPtr(b))
